@@ -82,6 +82,8 @@ PROPS = {
     'C07': P('C07', 1600, 16000, RULE % ('C07', 'it has >= 1 rejected batch and >= 1 accepted batch of >= 2 objects')),
     'C10': P('C10', 1600, 16000, RULE % ('C10', 'it runs in async mode under the virtual clock with >= 1 accepted write')),
     'C11': P('C11', 1600, 16000, RULE % ('C11', 'it applies >= 1 Control or Repair after file / index faults')),
+    'C14': P('C01', 320, 3200, RULE % ('C01', 'sequential histories only validate the model of cached / pending reads; the C14 engine proper is the alias correspondence of CloneObject on generated value graphs plus mutate-after-store / mutate-after-read probes through the database under the four cache x async configurations')),
+    'C19': P('C19', 1600, 16000, RULE % ('C19', 'it damages >= 1 file or directory entry or passes >= 1 ill-formed search argument and keeps calling the API afterwards')),
     'C12': P('C12', 400, 4000, RULE % ('C12', 'it has >= 1 accepted write and >= 1 read'), extra=[]),
     'C13': P('C13', 1600, 16000, RULE % ('C13', 'it collects >= 1 ordered result of >= 2 objects or an AssignIndex of >= 2 values')),
     'C15': P('C15', 1600, 16000, RULE % ('C15', 'it has >= 1 write rejected as invalid and >= 1 transformed accepted write')),
@@ -134,7 +136,7 @@ def lock_engine(pid, tier, seed, exe, workdir, V):
     recompile Gen/Skeleton.v and Lock/SodCheck.v, read the vm_compute verdicts."""
     res = {'obligations': 1, 'discharged': 0, 'oracle_failures': [], 'samples': [], 'evaluations': 0, 'nontrivial': 0}
     wd = os.path.join(workdir, 'lock')
-    r = _sh(['sh', os.path.join(V, 'go', 'extract', 'run.sh'), '/repo', wd], timeout=1800,
+    r = _sh(['sh', os.path.join(V, 'go', 'extract', 'run.sh'), os.environ.get('VERIF_REPO', '/repo'), wd], timeout=1800,
             env=dict(os.environ, GOFLAGS='-mod=mod', GOPROXY='off', GOSUMDB='off', GOTOOLCHAIN='local'))
     out = r.stdout
     res['summary'] = out[-3000:]
@@ -256,6 +258,86 @@ def golden_engine(pid, tier, seed, exe, workdir, V):
     return res
 
 
+def clone_engine(pid, tier, seed, exe, workdir, V):
+    """C14: (a) alias correspondence: CloneObject of generated value graphs (implementation, identities
+    read off by reflection/unsafe) against the extracted model's clone, path by path; (b) probes through
+    the database: mutate after store / after read under cache x async."""
+    import concurrent.futures
+    n = 60 if tier == 'quick' else 600
+    res = {'oracle_failures': [], 'evaluations': 0, 'nontrivial': 0, 'samples': [], 'mismatches': []}
+    drv = os.path.join(V, 'ocaml', 'driver')
+
+    def one(i):
+        out = os.path.join(workdir, 'clone_%d.txt' % i)
+        _sh([exe, '-clone', '-seed', str(seed), '-first', str(i), '-n', str(n), '-out', out], timeout=3000)
+        if not os.path.exists(out):
+            return '', ''
+        r = subprocess.run([drv, '-clone', out], stdout=subprocess.PIPE, stderr=subprocess.STDOUT, text=True, timeout=3000)
+        return open(out).read(), r.stdout
+    shared = 0
+    with concurrent.futures.ThreadPoolExecutor(max_workers=16) as ex:
+        for txt, cmpout in ex.map(one, range(16)):
+            for l in txt.splitlines():
+                if l.startswith('! C14'):
+                    res['oracle_failures'].append({'line': l, 'replay': [l], 'hist': 'clone probes'})
+                elif l.startswith('probe'):
+                    res['evaluations'] += 1
+            for l in cmpout.splitlines():
+                if l.startswith('same '):
+                    res['evaluations'] += 1
+                    res['nontrivial'] += 1
+                    if '1' in l:
+                        shared += 1
+                elif l.startswith('DIFF'):
+                    res['mismatches'].append({'op': 'clone', 'impl': l[:600], 'model': '', 'replay': [l[:2000]]})
+                elif l.strip():
+                    res['mismatches'].append({'op': 'clone', 'impl': 'driver: ' + l[:300], 'model': '', 'replay': [l[:600]]})
+            if txt and len(res['samples']) < 1:
+                res['samples'].append({'value_graph': txt.splitlines()[0][:400]})
+    if res['evaluations'] == 0:
+        res['broken'] = 'clone engine produced nothing'
+    if res['mismatches']:
+        res['broken'] = 'CloneObject and the model clone disagree on sharing/shape: %s' % res['mismatches'][0]['impl'][:800]
+    res['summary'] = '%d value graphs cloned by implementation and model (%d with a cell shared below an unexported field); probes through the DB under cache x async' % (res['nontrivial'], shared)
+    return res
+
+
+def fuzz_engine(pid, tier, seed, exe, workdir, V):
+    """C19: one byte- or structure-level mutation of a valid database directory (or a stray entry), then a
+    battery of API calls, each under recover() and a watchdog; outcome class per call."""
+    import concurrent.futures
+    n = 25 if tier == 'quick' else 400
+    res = {'oracle_failures': [], 'evaluations': 0, 'nontrivial': 0, 'samples': []}
+    kinds = {}
+    classes = {}
+
+    def one(i):
+        out = os.path.join(workdir, 'fuzz_%d.txt' % i)
+        _sh([exe, '-fuzz19', '-seed', str(seed), '-first', str(i * n), '-n', str(n), '-out', out], timeout=3000)
+        return open(out).read() if os.path.exists(out) else ''
+    with concurrent.futures.ThreadPoolExecutor(max_workers=16) as ex:
+        for txt in ex.map(one, range(16)):
+            for l in txt.splitlines():
+                if l.startswith('! C19'):
+                    res['oracle_failures'].append({'line': l, 'replay': [l], 'hist': 'fuzz19'})
+                elif l.startswith('fuzz '):
+                    res['evaluations'] += 1
+                    t = l.split()
+                    mk = t[2].split('=', 1)[1].split(':')
+                    kinds[':'.join(mk[:2]) if mk[0] != 'json' else 'json:' + ('schema' if mk[1] == 'schema' else 'object')] = kinds.get(':'.join(mk[:2]) if mk[0] != 'json' else 'json:' + ('schema' if mk[1] == 'schema' else 'object'), 0) + 1
+                    cs = set(x.split('=')[1] for x in t[3:] if '=' in x)
+                    for c in cs:
+                        classes[c] = classes.get(c, 0) + 1
+                    if cs - {'ok'}:
+                        res['nontrivial'] += 1
+                    if len(res['samples']) < 2:
+                        res['samples'].append({'fuzz': l[:500]})
+    if res['evaluations'] == 0:
+        res['broken'] = 'fuzz19 engine produced nothing'
+    res['summary'] = '%d mutated directories; mutation kinds %s; outcome classes %s' % (res['evaluations'], json.dumps(kinds, sort_keys=True), json.dumps(classes, sort_keys=True))
+    return res
+
+
 def run_extra(pid, tier, seed, exe, workdir, V):
     mod = EXTRA.get(pid)
     if mod is None:
@@ -263,4 +345,4 @@ def run_extra(pid, tier, seed, exe, workdir, V):
     return mod(pid, tier, seed, exe, workdir, V)
 
 
-EXTRA = {'C09': lock_engine, 'C08': race_engine, 'C12': pair_engine, 'C18': golden_engine}
+EXTRA = {'C14': clone_engine, 'C19': fuzz_engine, 'C09': lock_engine, 'C08': race_engine, 'C12': pair_engine, 'C18': golden_engine}
